@@ -273,7 +273,7 @@ def finding_signature(v):
 
 
 def load_known():
-    p = os.path.join(VERIF, "known_findings.json")
+    p = os.environ.get("VERIF_KNOWN") or os.path.join(VERIF, "known_findings.json")
     if not os.path.exists(p):
         return {"known": [], "fixed": []}
     return json.load(open(p))
